@@ -68,6 +68,7 @@ class Campaign:
         self.runs = 0
         self.mismatch = []      # [inst, r, runs, origin]
         self.sample = []
+        self.history = []       # sort -> rewire -> sort again on the same objects: [inst2, r, runs, origin]
         self.keys = set()
         self.nontrivial = 0
         self.c14 = {"changed": 0, "flag_false_but_changed": 0, "flag_true_unchanged": 0, "sub_only_false": 0, "example": None}
@@ -83,6 +84,8 @@ class Campaign:
                 self.mismatch.append(m + [{"source": source, "shuffle_inputs": shuffle_inputs}])
         for m in out["sample"]:
             self.sample.append(m + [{"source": source, "shuffle_inputs": shuffle_inputs}])
+        for m in out.get("history", []):
+            self.history.append(m[:3] + [{"source": source, "shuffle_inputs": shuffle_inputs, "history_of": m[3]["history_of"]}])
         for k in ("changed", "flag_false_but_changed", "flag_true_unchanged", "sub_only_false"):
             self.c14[k] += out["c14"][k]
         ex = out["c14"]["example"]
@@ -169,7 +172,7 @@ def report(ctx, observations, verdicts, origin_default="replay"):
                 any_fail = True
                 outc = out if out in ("ok", "ValueError") else out.replace("other:", "raise-")
                 feat = meta.get("feature")
-                who = f"feature-{feat}" if feat else api.split("@")[0]
+                who = f"feature-{feat}" if feat else ("sorted-again-after-rewiring" if meta.get("history_of") else api.split("@")[0])
                 if out not in ("ok", "ValueError"):
                     sig = f"C12:{who}:{outc}" + ("" if feat else f":{_shape_class(inst)}")
                 elif feat:
@@ -372,8 +375,13 @@ def run_engine(ctx):
     room = camp.cap - len(camp.mismatch) - len(hs_bad) - len(feature_obs)
     if len(sample) > max(room, 0):
         sample = rng.sample(sample, max(room, 0))
-    observations = camp.mismatch + hs_bad + feature_obs + sample
+    hist = camp.history
+    hcap = max(200, camp.cap // 4)
+    if len(hist) > hcap:
+        hist = rng.sample(hist, hcap)
+    observations = camp.mismatch + hs_bad + feature_obs + sample + hist
     ctx.extra["observations_judged_by_tlc"] = {
+        "sorted_again_after_rewiring": len(hist),
         "differing_from_spec": len(camp.mismatch), "hashseed_differing": len(hs_bad),
         "feature_scenarios": len(feature_obs), "conforming_sample": len(sample),
     }
@@ -405,6 +413,14 @@ def run_engine(ctx):
 def replay_detail(ctx, detail) -> bool:
     inst, r = detail["inst"], detail["r"]
     meta = detail.get("meta", {})
+    if meta.get("history_of"):
+        base = meta["history_of"]
+        h = tb.observe_history(base, tb.variant_of(detail["seed"], base, 9), meta.get("shuffle_inputs", False))
+        if h is None:
+            return False
+        v = judge(ctx, [[h[0], 1, h[1]]], "replay")[0]
+        print(f"replay (sorted again after rewiring): inst={h[0]} runs={h[1]} failed={v['failed']}")
+        return any(v["failed"]) or not v["determ"]
     if detail.get("api") == "determ":
         runs = []
         for api, runidx, _, _ in detail["runs"]:
